@@ -5,6 +5,7 @@
    the gas handed in and the state.  W = the rest of the world state, O = a clause output. *)
 From Coq Require Import ZArith List Bool Lia.
 From Verif Require Import Ledger.Model Ledger.Proofs TxExec.Model TxExec.Proofs TxExec.ProofsEffects TxExec.ProofsBlock TxExec.ProofsAdopt.
+From Verif Require Header.Rules Validation.Body Validation.ProofsPacker Compose.ExecSane.
 Import ListNotations.
 Open Scope Z_scope.
 
@@ -200,3 +201,24 @@ Print Assumptions adopt_full_rejected_unchanged.
 Print Assumptions adopt_full_refines.
 Print Assumptions adopted_tx_facts.
 Print Assumptions block_gas_full.
+
+(* ================================================================ composition *)
+(* C07 <-> C01 (Compose/ExecSane.v).  gas_bounds (1 above) together with ResolveTransaction's need of the origin is exactly
+   what C01's packed_block_accepted assumes of its abstract execution function (Validation.ProofsPacker.exec_sane: a receipt
+   uses at most the tx gas, execution needs a recoverable origin, tx gas <= block gas limit): with this model's exec_tx in the
+   place of C01's abstract exec (the fields C01's transaction view carries are taken from the view) the premise is a theorem. *)
+Theorem gas_bounds_discharge_c01_exec_sane (W O : Type)
+        (clause_result : env -> txn -> nat -> Z -> state W -> cres W O) (write_credit : Z -> Z -> Z -> W -> W)
+        (tx_rest : Validation.Body.txn -> txn) (env_rest : Header.Rules.bctx -> state W -> env)
+        (credit_of : Header.Rules.bctx -> state W -> Validation.Body.txn -> credit_info) (digest : receipt O -> N) :
+  oracle_ok W O clause_result ->
+  Validation.ProofsPacker.exec_sane (state W)
+    (ExecSane.exec_of_c07 W O clause_result write_credit tx_rest env_rest credit_of digest).
+Proof. exact (ExecSane.exec_of_c07_sane W O clause_result write_credit tx_rest env_rest credit_of digest). Qed.
+
+(* non-vacuity: ex_oracle_fine of this file is ExecSane.x_oracle; the instance packs and validates a block (Properties/C01.v) *)
+Example exec_sane_example : oracle_ok Z Z ExecSane.x_oracle.
+Proof. exact ExecSane.x_oracle_ok. Qed.
+
+Print Assumptions gas_bounds_discharge_c01_exec_sane.
+Print Assumptions exec_sane_example.
